@@ -436,7 +436,16 @@ def r10(ctx):
         outs = set()
         for r in explore(f.body, mk_atoms(facts), names=None):
             st = [(t, v) for t, v, k in r['stores'] if t.replace(' ', '') == 'self.site_location[1]']
-            outs.add(tuple(v for t, v in st))
+            # a function picked into a local (`pick = max if reverse else min`) is that function
+            fn_alias = {k_: src(v_) for k_, v_ in (r['env'] or {}).items() if isinstance(v_, ast.Name) and v_.id in ('min', 'max')}
+            vals = []
+            for t, v in st:
+                e_ = ast.parse(v, mode='eval').body
+                if isinstance(e_, ast.Call) and isinstance(e_.func, ast.Name) and e_.func.id in fn_alias:
+                    e_.func = ast.Name(id=fn_alias[e_.func.id], ctx=ast.Load())
+                    v = src(e_)
+                vals.append(v)
+            outs.add(tuple(vals))
         res[rev] = outs
 
     def kind(v):
